@@ -77,9 +77,15 @@ Refusing == prog["t"] = Refuse
 (* ------------------------------ UDP: exchange shapes and the ideal relay ------------------------------ *)
 Profiles == {<<0>>, <<1>>, <<2>>, <<0, 1>>, <<1, 2>>}
 ReplyPatterns == {<<1>>, <<0, 2, 1>>}
+\* -1 in a profile: the client stays silent for longer than the relay's idle timeout before its next datagram
+\* (a history the property quantifies over; expensive in real time, hence only these few shapes)
+IdleProfile == <<1, -1, 1>>
+IdleShapes == {[mode |-> m, assoc |-> "own", clients |-> cl, replies |-> <<1>>] :
+                  m \in {"udp", "socks5"}, cl \in {<<IdleProfile>>, <<IdleProfile, <<1>>>>}}
 UShapes == UNION {{[mode |-> m[1], assoc |-> m[2], clients |-> cl, replies |-> rp] :
                       m \in {m \in {<<"udp", "own">>, <<"socks5", "own">>, <<"socks5", "shared">>} : m[2] = "shared" => K >= 2},
                       cl \in [1 .. K -> Profiles], rp \in ReplyPatterns} : K \in 1 .. MaxK}
+           \cup IdleShapes
 
 TgtAddr == <<127, 0, 0, 1>>
 TgtPort == 4242
@@ -89,8 +95,9 @@ Dg(tag, n, a, b) == IF n = 0 THEN <<"empty">> ELSE <<tag, a, b>>
 RECURSIVE SentUpTo(_, _)
 SentUpTo(u, k) ==
   IF k = 0 THEN <<>>
-  ELSE SentUpTo(u, k - 1) \o [j \in 1 .. Len(u.clients[k]) |->
-         [k |-> k, j |-> j, n |-> u.clients[k][j], dg |-> Dg("q", u.clients[k][j], k, j), to |-> DestOf(u, k)]]
+  ELSE LET ds == SelectSeq(u.clients[k], LAMBDA a : a >= 0)   \* the datagrams (an idle period sends nothing)
+       IN SentUpTo(u, k - 1) \o [j \in 1 .. Len(ds) |->
+            [k |-> k, j |-> j, n |-> ds[j], dg |-> Dg("q", ds[j], k, j), to |-> DestOf(u, k)]]
 
 \* the history of an ideal relay: every datagram arrives from a source of its client's own, every reply goes back
 Ideal(u) ==
